@@ -21,9 +21,10 @@ from checks.c12 import (PRECEDENCE, Tally, attributed_sigs, run_counterfactuals,
 
 THEOREMS = [
     "range_analysis_sound", "range_analysis_type_unsound", "batches_range_scan_exact", "early_stop_sound",
-    "dv_and_range_commute", "start_row_sound", "rowset_range_scan_exact", "range_scan_full_unsound_key_not_first",
-    "range_scan_full_unsound_key_not_col0", "range_scan_full_unsound_dup_boundary", "range_scan_full_unsound_key_type",
-    "scan_filter_ignored_unsound",
+    "dv_and_range_commute", "start_row_sound", "rowset_range_scan_exact", "guard_implies_precondition",
+    "guarded_range_scan_exact", "range_scan_precondition_key_first", "range_scan_precondition_key_col0",
+    "range_scan_precondition_key_type", "range_guard_regression", "range_scan_dup_boundary_regression",
+    "scan_filter_residual", "scan_filter_false_regression",
 ]
 
 
@@ -141,8 +142,15 @@ def judge_case13(r, T):
         if sreq[2] == "none":
             base = (scols, impl)
             continue
-        # oracle: unfiltered scan of the same columns + python filter on the sort key
+        # oracle: unfiltered scan of the same columns + python filter on the sort key - for calls
+        # within the storage API's documented precondition (range filter = first column of the
+        # row-sets = first scanned column = INT sort key, Int32 bounds), which is also what the
+        # planner's guard admits; other calls are compared with the model only
         if pkdecl != "col" or base is None or base[0] != scols or base[1] is None:
+            continue
+        bounds = [b[1] for b in (sreq[2][1], sreq[2][2]) if b != "unb"]
+        if not (pk == "0" and scols[0] == 0 and cols[0][0] == "i32" and all(v.startswith("i32:") for v in bounds)):
+            T.dist["scan: outside the storage precondition (model comparison only)"] += 1
             continue
         rng = sreq[2]
         consts = [b[1] for b in (rng[1], rng[2]) if b != "unb"]
